@@ -56,13 +56,36 @@ pub struct FnDirective {
     /// external body is <init> itself and whose contract is the ASSUMED specification of that iterator chain). vx refuses (exit 2, "undecided")
     /// when the whitespace-stripped source text of <init> differs from the quoted text, so the assumption is tied to the exact source text.
     pub let_as: Vec<LetAs>,
+    pub map_fold: Option<MapFold>,
+    /// `//@ expect-body` + `//@|` lines (only with `//@ external_body`): the ASSUMED contract is tied to the quoted body text; vx refuses
+    /// (exit 2, "undecided") when the whitespace-stripped source text of the function body differs from it
+    pub expect_body: Vec<String>,
 }
 
 #[derive(Clone, Debug, Default)]
 pub struct LetAs {
     pub var: String,
+    /// `<var>#k`: the k-th `let` statement binding <var> (visiting order); default 1
+    pub nth: usize,
+    /// replacement expression; the single word `drop` deletes the whole statement (its effect is then part of a later helper's contract)
     pub call: String,
     pub expect: Vec<String>,
+}
+
+/// R21 (opt-in, `//@ map-fold-loop <V> [iter=<name>]`): the statement triple
+///     `let mut V = RECV.map(|x| BODY);  let H = V.next().expect(MSG);  .. V.fold(H, |t, p| E) ..`
+/// is rewritten to the loop it denotes by the definitions of `Map::next`, `Iterator::fold` and `Option::expect` in `core`:
+///     `let mut vx_acc: Option<_> = None; for x in RECV { let vx_item = BODY; vx_acc = Some(match vx_acc { None => vx_item, Some(t) => { let p = vx_item; E } }); }
+///      .. vx_acc.expect(MSG) ..`
+/// (the first item becomes H, every later item is folded in; BODY runs once per item, in iteration order, exactly as the lazy `map` does).
+/// The `//@|` lines that follow are split at lines consisting of `---` into: loop spec / proof after `let vx_item = BODY;` / proof at the end of the loop body.
+#[derive(Clone, Debug, Default)]
+pub struct MapFold {
+    pub var: String,
+    pub iter_name: Option<String>,
+    /// `ty=<T>`: item type, written into `let mut vx_acc: Option<T>` (rustc cannot always infer it after Verus' erasure)
+    pub ty: Option<String>,
+    pub lines: Vec<String>,
 }
 
 #[derive(Clone, Debug)]
@@ -145,6 +168,8 @@ enum Target {
     Loop(usize),
     Anchor(usize),
     LetAs(usize),
+    MapFold,
+    ExpectBody,
     None,
 }
 
@@ -175,6 +200,8 @@ fn parse_fn_block(name_line: &str, lines: &[(bool, String)]) -> FnDirective {
                 Target::Loop(n) => f.loops.get_mut(&n).unwrap().lines.push(l.clone()),
                 Target::Anchor(k) => f.anchors[k].lines.push(l.clone()),
                 Target::LetAs(k) => f.let_as[k].expect.push(l.clone()),
+                Target::MapFold => f.map_fold.as_mut().unwrap().lines.push(l.clone()),
+                Target::ExpectBody => f.expect_body.push(l.clone()),
                 Target::None => die(&format!("raw line without target: {}", l)),
             }
             continue;
@@ -198,6 +225,7 @@ fn parse_fn_block(name_line: &str, lines: &[(bool, String)]) -> FnDirective {
             "refvars" => curfn!().refvars = rest.split_whitespace().map(|x| x.to_string()).collect(),
             "allow-macro" => curfn!().allow_macros = rest.split_whitespace().map(|x| x.to_string()).collect(),
             "external_body" => curfn!().external_body = true,
+            "expect-body" => tgt = Target::ExpectBody,
             "allow-unsafe" => curfn!().allow_unsafe = true,
             "try-into-as" => curfn!().tryinto_as = Some(rest.to_string()),
             "call-as" => {
@@ -212,9 +240,28 @@ fn parse_fn_block(name_line: &str, lines: &[(bool, String)]) -> FnDirective {
                     Some((v, c)) if !c.trim().is_empty() => (v.to_string(), c.trim().to_string()),
                     _ => die("let-as needs <var> <replacement expression>"),
                 };
+                let (var, nth) = match var.split_once('#') {
+                    Some((v, k)) => (v.to_string(), k.parse::<usize>().unwrap_or_else(|_| die("let-as: bad ordinal"))),
+                    None => (var, 1),
+                };
                 let f = curfn!();
-                f.let_as.push(LetAs { var, call, expect: vec![] });
+                f.let_as.push(LetAs { var, nth, call, expect: vec![] });
                 tgt = Target::LetAs(f.let_as.len() - 1);
+            }
+            "map-fold-loop" => {
+                let mut it = rest.split_whitespace();
+                let var = it.next().unwrap_or_else(|| die("map-fold-loop needs <var>")).to_string();
+                let mut iter_name = None;
+                let mut ty = None;
+                for o in it {
+                    if let Some(v) = o.strip_prefix("iter=") {
+                        iter_name = Some(v.to_string());
+                    } else if let Some(v) = o.strip_prefix("ty=") {
+                        ty = Some(v.to_string());
+                    }
+                }
+                curfn!().map_fold = Some(MapFold { var, iter_name, ty, lines: vec![] });
+                tgt = Target::MapFold;
             }
             "loop" => {
                 let mut it = rest.split_whitespace();
